@@ -172,7 +172,35 @@ func (c *FuncCtx) eval0(st *State, e ast.Expr) Value {
 	panic(verr("unsupported expression %s (%T) at %s", exprString(e), e, c.prog.pos(e)))
 }
 
+// nilEq compares error / slice values with nil (or two errors by nil-ness only when one is nil).
+func nilEq(a, b Value) *Term {
+	isNil := func(v Value) *Term {
+		switch x := v.(type) {
+		case NilV:
+			return TTrue
+		case ErrV:
+			return x.IsNil
+		case SliceV:
+			return Eq(x.Addr, ConstI(0))
+		}
+		return nil
+	}
+	_, an := a.(NilV)
+	_, bn := b.(NilV)
+	if !an && !bn {
+		return nil
+	}
+	x, y := isNil(a), isNil(b)
+	if x == nil || y == nil {
+		return nil
+	}
+	return Eq(x, y)
+}
+
 func (c *FuncCtx) zeroValue(t types.Type) Value {
+	if isErrorType(t) {
+		return ErrV{TTrue}
+	}
 	if isBoolType(t) {
 		return BoolV{TFalse}
 	}
@@ -229,6 +257,11 @@ func (c *FuncCtx) evalBinary(st *State, n *ast.BinaryExpr) Value {
 			eq = Eq(a.T, asBool(rv))
 		case IntV:
 			eq = Eq(a.T, asInt(rv))
+		case ErrV, NilV, SliceV:
+			eq = nilEq(lv, rv)
+			if eq == nil {
+				panic(verr("unsupported comparison at %s", c.prog.pos(n)))
+			}
 		default:
 			panic(verr("unsupported comparison of %T at %s", lv, c.prog.pos(n)))
 		}
@@ -802,6 +835,9 @@ func (c *FuncCtx) mergeVal(st *State, cond *Term, a, b Value) Value {
 	case BoolV:
 		y := b.(BoolV)
 		return BoolV{Ite(cond, x.T, y.T)}
+	case ErrV:
+		y := b.(ErrV)
+		return ErrV{Ite(cond, x.IsNil, y.IsNil)}
 	case ArrV:
 		y := b.(ArrV)
 		r := ArrV{Elems: make([]Value, len(x.Elems))}
